@@ -242,4 +242,10 @@ def families(tier):
                             "range_check": False},
                     bounds=f"{which}, {'linear' if linear else 'step'}; pattern PPPRR; symbolic gaps >= 1 us",
                     must_cover=["pull:ok"], query_timeout_ms=8000))
+    for f in fams:
+        if not q:
+            # thorough tier (5 publications / symbolic gaps): nonlinear obligations go to a fresh solver so that the
+            # incremental solver deciding branch feasibility is not slowed down by them (see symx.Ctx.check)
+            f["isolate_checks"] = True
+            f["query_timeout_ms"] = 30000 if "symgaps" not in f["name"] else 10000
     return fams
